@@ -1,6 +1,7 @@
 package main
 
 import (
+	"encoding/json"
 	"flag"
 	"fmt"
 	"os"
@@ -44,6 +45,7 @@ func cmdHarness(args []string) {
 	wall := fs.Duration("wall", 10*time.Minute, "wall limit")
 	shard := fs.String("shard", "", "k/n: explore only shard k of n")
 	thorough := fs.Bool("thorough", false, "thorough bounds")
+	dumpSSA := fs.Bool("ssa", false, "print the SSA form of the harness function and exit")
 	fs.Parse(args)
 	if fs.NArg() < 2 {
 		fmt.Fprintln(os.Stderr, "usage: vcheck harness <pkgkey> <VH_name>...")
@@ -62,6 +64,10 @@ func cmdHarness(args []string) {
 		if fn == nil {
 			fmt.Fprintf(os.Stderr, "no harness %s in %s\n", name, key)
 			os.Exit(2)
+		}
+		if *dumpSSA {
+			fn.WriteTo(os.Stdout)
+			continue
 		}
 		stats := &SolverStats{}
 		opt := RunOpts{CapMs: *capMs, Wall: *wall, Concrete: *concrete >= 0, Seed: uint64(*concrete), Trace: *trace, Thorough: *thorough}
@@ -111,7 +117,7 @@ func printResult(res *HarnessResult) {
 		fmt.Printf("   note: %s\n", s)
 	}
 	if len(res.GlobalWrites) > 0 {
-		fmt.Printf("   global writes: %v\n", res.GlobalWrites)
+		fmt.Printf("   global writes: %d sites (first: %s)\n", len(res.GlobalWrites), res.GlobalWrites[0])
 	}
 	if len(res.Obs) > 0 && len(res.Obs[0]) > 0 {
 		fmt.Printf("   obs[0]: %v\n", res.Obs[0])
@@ -120,4 +126,89 @@ func printResult(res *HarnessResult) {
 
 var _ = strconv.Itoa
 
-func cmdReplay(args []string) { fmt.Println("not yet") }
+// cmdReplay re-executes a counterexample file written by `vcheck run`:
+// concretely in the interpreter and, unless the lemma has no native twin,
+// natively through go test -overlay. Exit 1 if the violation reproduces.
+func cmdReplay(args []string) {
+	fs := flag.NewFlagSet("replay", flag.ExitOnError)
+	repo := fs.String("repo", envOr("VERIF_REPO", "/repo"), "repository")
+	verif := fs.String("verif", envOr("VERIF_DIR", "/verif"), "verif dir")
+	trace := fs.Bool("trace", false, "trace instructions")
+	fs.Parse(args)
+	if fs.NArg() != 1 {
+		fmt.Fprintln(os.Stderr, "usage: vcheck replay <replay.json>")
+		os.Exit(2)
+	}
+	data, err := os.ReadFile(fs.Arg(0))
+	if err != nil {
+		fmt.Fprintln(os.Stderr, err)
+		os.Exit(2)
+	}
+	var rf struct {
+		Property string            `json:"property"`
+		Lemma    string            `json:"lemma"`
+		Package  string            `json:"package"`
+		Harness  string            `json:"harness"`
+		Failed   string            `json:"failed"`
+		Kind     string            `json:"kind"`
+		Nondet   map[string]string `json:"nondet"`
+	}
+	if err := json.Unmarshal(data, &rf); err != nil {
+		fmt.Fprintln(os.Stderr, err)
+		os.Exit(2)
+	}
+	ld, err := Load(*repo, *verif)
+	if err != nil {
+		fmt.Println("STALE", err)
+		os.Exit(2)
+	}
+	vals := map[string]uint64{}
+	for k, hx := range rf.Nondet {
+		x, _ := strconv.ParseUint(hx, 16, 64)
+		vals[k] = x
+	}
+	thorough := os.Getenv("VERIF_THOROUGH") != ""
+	ir := RunHarness(ld, rf.Package, rf.Harness, RunOpts{CapMs: 60000, Wall: 5 * time.Minute, Concrete: true, Values: vals, Trace: *trace, Thorough: thorough}, nil)
+	v := Violation{Label: rf.Failed, Kind: rf.Kind}
+	interpOK := reproduces(ir, v)
+	fmt.Printf("interpreter (concrete): %s\n", boolWord(interpOK))
+	for _, x := range ir.Violations {
+		fmt.Printf("   violated: %s at %s\n", x.Label, x.Site)
+		if x.Stack != "" {
+			fmt.Print(x.Stack)
+		}
+	}
+	if len(ir.Obs) > 0 {
+		for _, o := range ir.Obs[0] {
+			fmt.Printf("   obs %s = %d\n", o.Label, o.Val)
+		}
+	}
+	nativeOK := false
+	noNative := false
+	if lf, err := readLemmas(*verif); err == nil {
+		for _, l := range lf.Lemmas {
+			if l.Name == rf.Lemma {
+				noNative = l.NoNative
+			}
+		}
+	}
+	if !noNative {
+		tmp, _ := os.MkdirTemp("", "vcheck-replay-")
+		defer os.RemoveAll(tmp)
+		nat := &nativeSide{repo: *repo, verif: *verif, tmp: tmp, bins: map[string]string{}, errs: map[string]string{}}
+		nr, err := nat.runFile(rf.Package, rf.Harness, fs.Arg(0))
+		if err != nil {
+			fmt.Println("native: failed to run:", err)
+		} else {
+			nativeOK = nativeReproduces(nr, v)
+			fmt.Printf("native: %s (outcome %s, failed assert %q, panic %q)\n", boolWord(nativeOK), nr.Outcome, nr.Fail, nr.Panic)
+		}
+	} else {
+		fmt.Println("native: not available (harness uses substitutions)")
+	}
+	if nativeOK || (noNative && interpOK) {
+		fmt.Printf("VIOLATION property=%s replay=%s lemma=%s harness=%s assert=%q\n", rf.Property, fs.Arg(0), rf.Lemma, rf.Harness, rf.Failed)
+		os.Exit(1)
+	}
+	os.Exit(0)
+}
